@@ -41,18 +41,29 @@ def meek_resolution(case, viol):
         twin = drive.run(dict(c, options=o))
     except Exception:      # pylint: disable=broad-except
         return False
-    return twin.exc is None and not twin.budget_hit and twin.stage == 'done' and \
-        len(twin.elected) == min(c['nseats'], c['ncand'] - len(c.get('withdrawn') or []))
+    if not (twin.exc is None and not twin.budget_hit and twin.stage == 'done' and
+            len(twin.elected) == min(c['nseats'], c['ncand'] - len(c.get('withdrawn') or []))):
+        return False
+    # ... and the high-resolution twin satisfies every clause of C08 (keep factors, conservation, exits)
+    from .props import C08
+    try:
+        return not C08.check(dict(c, options=o)).violations
+    except Exception:      # pylint: disable=broad-except
+        return False
 
 
 def meek_s2_or_resolution(case, viol):
     """F04.  A keep factor out of range or a negative tally is the known finding only under options outside stratum S1;
-    the crash signatures (ZeroDivisionError in the keep-factor update, post-count assertion) also when the failure
-    disappears with 12 more digits.  (A keep factor of 1.000000001 under default options was a different defect, F22:
+    the crash signatures (ZeroDivisionError in the keep-factor update, post-count assertion) and a keep factor truncated
+    to exactly 0 also when the failure disappears with 12 more digits (the twin must pass every clause of C08).  (A keep factor of 1.000000001 under default options was a different defect, F22:
     it also disappears with more digits, so the resolution test must not cover that signature.)"""
     if meek_s2(case, viol):
         return True
-    if viol.get('sig', '').startswith('count-raises'):
+    sig = viol.get('sig', '')
+    if sig.startswith('count-raises'):
+        return meek_resolution(case, viol)
+    if sig.startswith('kf-elected') and ' has keep factor 0 at ' in viol.get('detail', ''):
+        # truncated to exactly 0 (never the F22 shape, a keep factor above 1): known only if more digits cure it
         return meek_resolution(case, viol)
     return False
 
